@@ -1,6 +1,6 @@
 (* C11 - update rewrites only the addressed rule's @rx operand.  Statements only. *)
 From Coq Require Import String.
-From Verif Require Import Base.Str Base.Outcome Model.Update Proofs.UpdateProofs Proofs.RoundTripProofs.
+From Verif Require Import Base.Str Base.Outcome Model.RuleId Model.Update Model.Renumber Model.Cli Proofs.UpdateProofs Proofs.RoundTripProofs Proofs.CliProofs Proofs.CliUpdateFrameProofs.
 From Verif Require Tie.Pin_RuleRxRegex_src Tie.Pin_SecRuleRegex_src Tie.Pin_lits_cmd_regex_update_updateRegex
   Tie.Pin_lits_cmd_regex_update_processRule Tie.Pin_lits_cmd_regex_update_performUpdate.
 Open Scope N_scope.
@@ -56,3 +56,36 @@ Proof.
   exists i, g1, g2, rest. split; [exact Hline|reflexivity].
 Qed.
 Print Assumptions C11_rewritten_line_is_old_line_with_new_operand.
+
+(* ---------- whole command on the tree model ---------- *)
+(* a successful `regex update ARG` changes exactly one file - the unique rules file the id's prefix
+   selects - and in it exactly one line: the old line g1 ++ operand ++ closing ++ rest becomes
+   g1 ++ (what generate printed for the assembly file) ++ closing; the new tree is the old one with
+   that one file's bytes replaced (t_set: no file created, deleted or otherwise touched) *)
+Theorem C11_update_command_rewrites_exactly_one_line_of_one_file :
+  forall gen bits t arg t', update_one gen bits t arg = (t', Success) ->
+  exists r regex rf c i g1 g2 rest,
+    parse_rule_id bits arg = Some r /\
+    gen t (d_assembly ++ [r_file r]) = Ok regex /\ glob_rules t (r_id r) = [rf] /\ is_rules_file rf /\ t_get t rf = Some c /\
+    locate (split_on 10 c) (r_id r) (r_chain r) = Ok (Some i) /\
+    nth i (split_on 10 c) [] = g1 ++ g2 ++ closing ++ rest /\
+    t' = t_set t rf (join [10] (set_nth i (g1 ++ regex ++ closing) (split_on 10 c))).
+Proof. exact update_one_exact. Qed.
+Print Assumptions C11_update_command_rewrites_exactly_one_line_of_one_file.
+
+(* the same for every step of `update --all` *)
+Theorem C11_update_step_rewrites_exactly_one_line_of_one_file :
+  forall gen t id k f t', process_rule gen t id k f = Ok t' ->
+  exists regex rf c i g1 g2 rest,
+    gen t f = Ok regex /\ glob_rules t id = [rf] /\ is_rules_file rf /\ t_get t rf = Some c /\
+    locate (split_on 10 c) id k = Ok (Some i) /\
+    nth i (split_on 10 c) [] = g1 ++ g2 ++ closing ++ rest /\
+    t' = t_set t rf (join [10] (set_nth i (g1 ++ regex ++ closing) (split_on 10 c))).
+Proof. exact process_rule_exact. Qed.
+Print Assumptions C11_update_step_rewrites_exactly_one_line_of_one_file.
+
+Theorem C11_update_command_leaves_other_files :
+  forall gen bits t arg t' q, update_one gen bits t arg = (t', Success) ->
+  (forall r, parse_rule_id bits arg = Some r -> glob_rules t (r_id r) <> [q]) -> t_get t' q = t_get t q.
+Proof. exact update_one_other_files. Qed.
+Print Assumptions C11_update_command_leaves_other_files.
